@@ -38,6 +38,10 @@ CHECKS = {
                 text="Round-trip oracles over all shipped documents, generated documents with every optional field/pseudo-push kind, generated blocks (two text formats) and eight textual spellings per constant; finds any field dropped, invented or re-valued on the explored inputs.",
                 note="JSON equality as values (key order ignored), modulo the documented PUSH0 spelling; contracts without asm are generated as {} as in the shipped corpus",
                 ref="DESIGN.md section 3 C15"),
+    "C08": dict(level="exploration", technique="property-based testing through the real CLI entry with an independent cost model (differential accounting): per-block monotonicity + acceptance rule + printed totals and CSV columns re-derived from the emitted file; exhaustive opcode-table diff",
+                text="Generated contracts under all criteria/split/back-end options: every emitted block is priced with an independent table and must be no costlier (and improved if changed); printed totals and CSV savings must equal sums/differences of those figures; the tool's size/gas table is diffed against the independent one over every opcode name.",
+                note="independent table follows the Yellow Paper/EIPs with stated assumptions for dynamic parts (EXP one byte, per-word parts excluded, access-list convention within a block)",
+                ref="DESIGN.md section 3 C08"),
 }
 
 NOT_YET = {}
